@@ -92,4 +92,8 @@ def ClassSpec.target (c : ClassSpec) (r : Rec) : Except Err Rec :=
 def ClassSpec.placeholder (c : ClassSpec) (w : Word) : Except Err Word :=
   (c.matchSeq w).map (fun m => m.group w 1 ++ m.group w 2)
 
+/-- `AbstractPart.characterize(record)`: the first candidate type (direct subclasses in definition order,
+then the class itself when concrete) whose `is_valid()` is true; `none` = `RuntimeError` -/
+def characterize (cands : List ClassSpec) (w : Word) : Option Nat := cands.findIdx? (fun c => c.isValid w)
+
 end Moclo
